@@ -175,8 +175,58 @@ def check_twins(job):
     return {"viol": msgs, "obs": common.digest(r["page"] or ""), "nt": common.digest(job), "cls": "twins" if msgs else None}
 
 
+def check_namesakes(job):
+    """two documented commands with the SAME name but different doc texts in one scope (for attributes, members and
+    constructors: in one class), e.g. a redeclaration: both texts must reach the page"""
+    _, carrier = job
+    a, b = ["Namesake text alpha.", "", "  alpha indented"], ["Namesake text beta.", ":field: beta"]
+    e1, i1 = carrier_events(carrier, a, "ns")
+    pre, item = e1[:i1], e1[i1]
+    item["name"] = cmakegen.name_of(item, i1)
+    second = dict(item, doctext=list(b))
+    events = cmakegen.close(pre + cmakegen.close([item]) + cmakegen.close([second]))
+    r = pipeline.document_text(cmakegen.text_of(events))
+    msgs = []
+    if r["page"] is None:
+        msgs = [f"error: pipeline failed: {r['error']}"]
+    else:
+        lines = [l.strip() for l in r["page"].split("\n")]
+        for l in a + b:
+            if l.strip() and lines.count(l.strip()) != 1:
+                msgs.append(f"namesake: line {l!r} of one of two same-named documented {carrier} commands appears "
+                            f"{lines.count(l.strip())} times in the page, expected once")
+    return {"viol": msgs, "obs": common.digest(r["page"] or ""), "nt": common.digest(job), "cls": "namesake" if msgs else None}
+
+
+STRIP_CFGS = ["^_cf_", "^[^_]*_", "pfx", "_$"]
+
+
+def check_cfg(job):
+    """a parameter-name strip pattern is configured and the doc text mentions the parameters: the text stays verbatim"""
+    _, carrier, rx = job
+    params = ["_cf_dst", "pfx_name_", "plain"]
+    body = ["Copies _cf_dst to pfx_name_ (plain).", "", ":param _cf_dst: where pfx_name_ goes", ":param pfx_name_: see _cf_dst",
+            "  _cf_dst pfx_name_ plain"]
+    events, idx = carrier_events(carrier, body, "cfg")
+    events[idx]["params"] = list(params)
+    if "types" in events[idx]:
+        events[idx]["types"] = ["int"] * len(params)
+    cfg = {k: rx for k in ("function_parameter_name_strip_regex", "macro_parameter_name_strip_regex", "member_parameter_name_strip_regex")}
+    from .. import modsearch
+    r = pipeline.document_text(cmakegen.text_of(events), modsearch.settings_of(cfg))
+    if r["page"] is None:
+        msgs = [f"error: pipeline failed: {r['error']}"]
+    else:
+        msgs = judge(r["page"], cmakegen.close(events), [(idx, body)])
+    return {"viol": msgs, "obs": common.digest(r["page"] or ""), "nt": common.digest(job), "cls": ("cfg/" + msgs[0].split(":")[0]) if msgs else None}
+
+
 def check(job):
     mode = job[0]
+    if mode == "namesake":
+        return check_namesakes(job)
+    if mode == "cfg":
+        return check_cfg(job)
     if mode == "cli":
         return check_cli(job)
     if mode == "twin":
@@ -316,6 +366,13 @@ def run(ctx):
             continue
         for a in (["Twin doc line."], ["Twin doc.", "", "  second"]):
             jobs.append(("twin", c, a))
+    # namesakes: the same name with two different doc texts in one scope; and configured parameter-name strip patterns
+    for c in ("function", "macro", "set", "option", "generic", "add_test", "ct_add_test", "ct_add_section", "class1", "class2",
+              "attr1", "attr2", "member1", "member2", "ctor1"):
+        jobs.append(("namesake", c))
+    for c in ("function", "macro", "member1", "member2", "ctor1", "ct_add_test", "ct_add_section"):
+        for rx in STRIP_CFGS:
+            jobs.append(("cfg", c, rx))
     nc = len(jobs) - na - nb
     ctx.cov["bounds"] = {"atoms": ATOMS, "core": CORE, "indents": INDENTS, "carriers": CARRIERS,
                          "space_A": na, "space_B": nb, "space_C": nc}
